@@ -1403,7 +1403,7 @@ class Interp:
             return NOTHING_VAL
         # --- Option helpers: an unknown receiver of a closure-taking combinator is explored as Some(unknown) and as None (so that the closure's
         #     conversions are seen: `opt.map(|c| self.convert_a(c)).unwrap_or(self.convert_b())`)
-        if path.startswith('std::option::Option::<T>::') and last in ('map', 'and_then', 'unwrap_or_else', 'or_else', 'is_some_and', 'is_none_or', 'filter', 'map_or') \
+        if path.startswith('std::option::Option::<T>::') and last in ('map', 'and_then', 'unwrap_or_else', 'or_else', 'is_some_and', 'is_none_or', 'filter', 'map_or', 'map_or_else') \
                 and not (isinstance(a0d, Agg) and a0d.adt.endswith('Option')) and not getattr(self, '_in_opt_fork', False) \
                 and any(isinstance(deref(a), Agg) and deref(a).adt.startswith('closure:') for a in args[1:]):
             m_none = fork(m)
@@ -1449,6 +1449,15 @@ class Interp:
                     return x.fields[0]
                 if last == 'flatten' and x.variant == 'None':
                     return x
+                if last in ('map_or', 'map_or_else') and len(args) >= 3:
+                    # opt.map_or(d, f) / opt.map_or_else(d, f): Some(x) => f(x); None => d / d()
+                    if x.variant == 'Some':
+                        some = self.option_hof(m, f, t, 'map', x, [args[0], args[2]])
+                        return some.fields[0] if isinstance(some, Agg) and some.variant == 'Some' else TOP
+                    if last == 'map_or':
+                        return deref(args[1])
+                    some = self.option_hof(m, f, t, 'map', Agg('core::option::Option', 'Some', [NOTHING_VAL]), [args[0], args[1]], unit_arg=True)
+                    return some.fields[0] if isinstance(some, Agg) and some.variant == 'Some' else TOP
                 if last == 'unwrap_or_else' and x.variant == 'None':
                     # runs the closure (no argument); its result is the value
                     some = self.option_hof(m, f, t, 'map', Agg('core::option::Option', 'Some', [NOTHING_VAL]), args, unit_arg=True)
